@@ -172,6 +172,17 @@ def handle (j : Json) : Except String Json := do
     else
       -- unbounded: a feasible point and an improving ray of the dense form
       pure (Json.mkObj [("ok", Json.bool (p.closedB && p.toDense.checkUnbdd (← ratsOf j "x") (← ratsOf j "z")))])
+  | "leaves" =>
+    -- mixed-integer problem: the leaf problems (binary variables fixed) in the order of `allAssign p.binVars`, dense
+    pure (Json.mkObj [("leaves", Json.arr ((allAssign p.binVars).map (fun a => denseJson (p.fix a))).toArray), ("bins", Json.num p.binVars.length),
+      ("min", Json.bool (!p.dirMax))])
+  | "certmilp" =>
+    let cs ← (← (← j.getObjVal? "certs").getArr?).toList.mapM (fun c => do
+      let kind ← (← c.getObjVal? "kind").getStr?
+      if kind == "optimal" then pure (LeafCert.opt (← ratsOf c "x") (← ratsOf c "y"))
+      else if kind == "infeasible" then pure (LeafCert.infeas (← ratsOf c "y"))
+      else throw "a leaf certificate is optimal or infeasible")
+    pure (Json.mkObj [("ok", Json.bool (p.certLeavesMin cs (← ratOf j "L")))])
   | w => throw s!"unknown request {w}"
 
 partial def loop (h : IO.FS.Stream) : IO Unit := do
